@@ -1053,6 +1053,85 @@ GROUPS.append(("FnsConstr5.lean", ["Sds.Model.WM", "Sds.Generated.FnsVec", "Sds.
 ]))
 
 
+# ---- IntVector::resize (a `match` with guards: an if / else-if chain), with `reserve` (the `Vec` capacity, which no model can
+# see, is the named parameter `cap`)
+RAW_SELF_M = dict(lean="RawVec", var="v", rust="RawVector", mut=True, fields={"len": ("len", U), "data": ("data", A)}, order=["len", "data"])
+VEC3_CALLS = {
+    "self.len": dict(lean="self_len", ret=U, monadic=False),
+    "self.width": dict(lean="self_width", ret=U, monadic=False),
+    "bits::bits_to_words": dict(lean="gen_bits_to_words m {0}", ret=U, args=[U]),
+    "self.data.capacity": dict(lean="cap", ret=U, monadic=False),
+    "self.data.reserve": dict(lean="()", ret=UNIT, monadic=False, args=[U]),
+    "self.reserve": dict(lean="gen_IntVector_reserve m cap {self} {0}", ret=UNIT, mutself=True, args=[U]),
+    "self.push": dict(lean="gen_IntVector_push m {self} {0}", ret=UNIT, mutself=True, args=[W]),
+    "self.data.resize": dict(lean="gen_RawVector_resize m self_data {0} {1}", ret=UNIT, setvar="self_data", args=[U, B]),
+}
+GROUPS.append(("FnsVec3.lean", ["Sds.Model.IntVec", "Sds.Generated.FnsVec"], [
+    dict(file="raw_vector.rs", impl=r"impl RawVector\b", fn="reserve", name="gen_RawVector_reserve", self=RAW_SELF_M, binders=["(cap : Nat)"], calls=VEC3_CALLS),
+    dict(file="int_vector.rs", impl=r"impl Resize for IntVector\b", fn="reserve", name="gen_IntVector_reserve", self=dict(INT_SELF, mut=True), binders=["(cap : Nat)"],
+         calls=dict(VEC3_CALLS, **{"self.data.reserve": dict(lean="gen_RawVector_reserve m cap self_data {0}", ret=UNIT, setvar="self_data", args=[U])})),
+    dict(file="int_vector.rs", impl=r"impl Resize for IntVector\b", fn="resize", name="gen_IntVector_resize", self=dict(INT_SELF, mut=True), binders=["(cap : Nat)"],
+         calls=VEC3_CALLS, tyalias=ITEM, fuel=["new_len + 1"]),
+]))
+
+
+# ---- conversions: the three `copy_bit_vec` (generic over the source: its `len()`, `count_ones()` and the list of the items of
+# its `one_iter()` are the parameters `len`, `ones`, `items`)
+SRC_PARAMS = {"source": ("(len ones : Nat) (items : List (Nat × Nat))", ("N", "BitSource"), "source")}
+COPY_CALLS = {
+    "source.len": dict(lean="len", ret=U, monadic=False),
+    "source.count_ones": dict(lean="ones", ret=U, monadic=False),
+    "source.one_iter": dict(lean="items", ret=PAIRIT, monadic=False),
+    "RawVector::with_len": dict(lean="gen_RawVector_with_len m {0} {1}", ret=RV, args=[U, B]),
+    "<RawVector>.set_bit": dict(lean="gen_RawVector_set_bit m {0} {1} {2}", ret=UNIT, mutrecv=True, monadic=True, args=[U, B]),
+    "BitVector::from": dict(lean="gen_BitVector_from_raw m {0}", ret=BV, args=[RV]),
+    "SparseBuilder::new": dict(lean="gen_SparseBuilder_new m fw {0} {1}", ret=SPBR, result=True, args=[U, U]),
+    "<SparseBuilder>.set_unchecked": dict(lean="spbrLift (fun b => gen_SparseBuilder_set_unchecked m b {1}) {0}", ret=UNIT, mutrecv=True, monadic=True, args=[U]),
+    "SparseVector::try_from": dict(lean="gen_SparseVector_try_from m {0}", ret=("N", "SparseVector"), result=True, args=[SPBR]),
+    "RLBuilder::new": dict(lean="gen_RLBuilder_new m", ret=("N", "RLBuilder")),
+    "<RLBuilder>.set_bit_unchecked": dict(lean="gen_RLBuilder_set_bit_unchecked m {0} {1}", ret=UNIT, mutrecv=True, monadic=True, args=[U]),
+    "<RLBuilder>.set_len": dict(lean="gen_RLBuilder_set_len m {0} {1}", ret=UNIT, mutrecv=True, monadic=True, args=[U]),
+    "RLVector::from": dict(lean="gen_RLVector_from_builder m {0}", ret=RLV_T, args=[("N", "RLBuilder")]),
+}
+GROUPS.append(("FnsCopy.lean", ["Sds.Model.GenStructs", "Sds.Generated.FnsConstr3", "Sds.Generated.FnsConstr4", "Sds.Generated.FnsBuild"], [
+    dict(file="bit_vector.rs", impl=r"impl BitVector\b", fn="copy_bit_vec", name="gen_BitVector_copy_bit_vec", calls=COPY_CALLS, params=SRC_PARAMS,
+         tyalias={"Self": BV}),
+    dict(file="sparse_vector.rs", impl=r"impl SparseVector\b", fn="copy_bit_vec", name="gen_SparseVector_copy_bit_vec", calls=COPY_CALLS, params=SRC_PARAMS,
+         binders=["(fw : Nat)"], structs_over={"SparseBuilder": SPBR_STRUCT}, tyalias={"Self": ("N", "SparseVector")}),
+    dict(file="rl_vector.rs", impl=r"impl RLVector\b", fn="copy_bit_vec", name="gen_RLVector_copy_bit_vec", calls=COPY_CALLS, params=SRC_PARAMS,
+         structs_over={"RLVector": RLVEC_STRUCT}, tyalias={"Self": RLV_T}),
+]))
+
+
+# ---- the rest of the sparse builder's public surface: `set` (`try_set(..).unwrap()`), `Extend::extend` (the iterator is the
+# list of its items), and `SparseVector::is_multiset` (a `for` over `one_iter()` with an early `return true`)
+SPMISC_CALLS = {
+    "self.try_set": dict(lean="gen_SparseBuilder_try_set m {self} {0}", ret=UNIT, mutself=True, result=True, args=[U]),
+    "self.set": dict(lean="gen_SparseBuilder_set m {self} {0}", ret=UNIT, mutself=True, args=[U]),
+    "self.len": dict(lean="s.len", ret=U, monadic=False),
+    "self.one_iter": dict(lean="items", ret=PAIRIT, monadic=False),
+}
+GROUPS.append(("FnsSpMisc.lean", ["Sds.Model.Sparse", "Sds.Generated.FnsBuild"], [
+    dict(file="sparse_vector.rs", impl=r"impl SparseBuilder\b", fn="set", name="gen_SparseBuilder_set", self=dict(SPB_SELF, mut=True), calls=SPMISC_CALLS),
+    dict(file="sparse_vector.rs", impl=r"impl Extend<usize> for SparseBuilder\b", fn="extend", name="gen_SparseBuilder_extend", self=dict(SPB_SELF, mut=True),
+         calls=SPMISC_CALLS, params={"iter": ("(iter : List Nat)", LISTIT, "iter")}),
+    dict(file="sparse_vector.rs", impl=r"impl SparseVector\b", fn="is_multiset", name="gen_SparseVector_is_multiset", self=SPARSE_SELF, calls=SPMISC_CALLS,
+         binders=["(items : List (Nat × Nat))"]),
+]))
+TFI_CALLS = {
+    "<ListIter>.size_hint": dict(lean="({0}.length, some {0}.length)", ret=("T", [U, ("O", U)]), monadic=False),
+    "<ListIter>.next_back": dict(lean="({0}.getLast?, {0}.dropLast)", ret=("O", U), mutrecv=True),
+    "SparseBuilder::multiset": dict(lean="gen_SparseBuilder_multiset m fw {0} {1}", ret=SPBR, args=[U, U]),
+    "<SparseBuilder>.try_set": dict(lean="spbrLift (fun b => gen_SparseBuilder_try_set m b {1}) {0}", ret=UNIT, mutrecv=True, monadic=True, args=[U]),
+    "SparseVector::try_from": dict(lean="gen_SparseVector_try_from m {0}", ret=("N", "SparseVector"), args=[SPBR]),
+}
+GROUPS.append(("FnsSpMisc2.lean", ["Sds.Model.GenStructs", "Sds.Generated.FnsBuild", "Sds.Generated.FnsConstr3"], [
+    dict(file="sparse_vector.rs", impl=r"impl SparseVector\b", fn="try_from_iter", name="gen_SparseVector_try_from_iter", calls=TFI_CALLS,
+         binders=["(fw : Nat)"], params={"iter": ("(iter : List Nat)", LISTIT, "iter")}, structs_over={"SparseBuilder": SPBR_STRUCT},
+         ret=("N", "SparseVector"), err_as_fault=True),
+]))
+
+
 def generate_fn_files(read, consts_by_file):
     """read(rel) -> source text; consts_by_file: {rel: {NAME: int}} (module / associated constants visible in that file)"""
     files = {}
